@@ -221,6 +221,58 @@ def run_randsets(spec, rec):
     drain(log, rec, 'mixed')
 
 
+def judge_highlights(cls, clsname, version, x, ranges, ec, letters, rec):
+    """a textual leaf created with highlights=: the \\H\\ ... \\N\\ markers go around the raw text of each range, and the
+    encoding is delimiter-safe and made of whole escape sequences like any other"""
+    case = {'kind': 'highlights', 'version': version, 'cls': clsname, 'ec': ec, 'value': x, 'ranges': [list(r) for r in ranges]}
+    rec.evaluation((clsname, version, hooks._ec_str(ec), x, tuple(ranges)), True)
+    try:
+        obj = cls(x, highlights=tuple(ranges))
+        y = obj.to_er7(ec)
+    except Exception as e:
+        rec.violation('encode-raised:%s' % type(e).__name__, case, {'exc': repr(e)[:200]})
+        return
+    rec.count('highlight_cases')
+    if not _judge_highlighted(x, y, ranges, ec, letters, rec, case):
+        return
+    # the same object encoded once more under a set with another escape character (a value shared by two messages)
+    free = [c for c in '!$%*+;<=>?@' if c not in ec.values() and c not in x]
+    if free:
+        ec2 = dict(ec, ESCAPE=free[0])
+        try:
+            y2 = obj.to_er7(ec2)
+        except Exception as e:
+            rec.violation('encode-raised:%s' % type(e).__name__, dict(case, ec=ec2), {'exc': repr(e)[:200]})
+            return
+        rec.count('highlight_cases_second_set')
+        _judge_highlighted(x, y2, ranges, ec2, letters, rec, dict(case, ec=ec2, second_encoding=True))
+
+
+def _judge_highlighted(x, y, ranges, ec, letters, rec, case):
+    if not er7ref.well_formed(y, ec, letters):
+        rec.violation(classify_illformed(x, y, ec, letters), case, {'encoded': y})
+        return False
+    if ec['ESCAPE'] not in x:
+        esc = ec['ESCAPE']
+        out = []
+        for i, ch in enumerate(x):
+            for a, b in ranges:
+                if b == i:
+                    out.append(esc + 'N' + esc)
+            for a, b in ranges:
+                if a == i:
+                    out.append(esc + 'H' + esc)
+            out.append(er7ref.ref_escape(ch, ec, letters))
+        for a, b in ranges:
+            if b >= len(x):
+                out.append(esc + 'N' + esc)
+        want = ''.join(out)
+        if y != want:
+            rec.violation('content-not-preserved', case, {'encoded': y, 'expected': want})
+            return False
+    return True
+
+
 def run_long(spec, rec):
     rng = gen.rng_for(spec['seed'], 'c06-long', spec['part'])
     vs = tables.versions()
@@ -239,6 +291,11 @@ def run_long(spec, rec):
             rec.count('very_long_strings')
         x = ''.join(rng.choice(alpha) for _ in range(n))
         judge(classes[name], name, v, x, ec, letters, rec)
+        if i % 6 == 1 and 2 <= len(x) <= 60:
+            cuts = sorted(rng.sample(range(len(x) + 1), min(4, len(x) + 1)))
+            ranges = [(cuts[k], cuts[k + 1]) for k in range(0, len(cuts) - 1, 2) if cuts[k] < cuts[k + 1]]
+            if ranges:
+                judge_highlights(classes[name], name, v, x, ranges, ec, letters, rec)
     rec.count('long_strings', spec['n'])
 
 
@@ -337,6 +394,14 @@ def replay(case, rec):
         clsname = (case.get('cls') or 'ST').split('.')[-1]
         cls = textual_classes(v).get(clsname) or textual_classes(v)['ST']
         judge(cls, clsname, v, case['value'], ec, er7ref.letters_for(v), rec)
+    elif case['kind'] == 'highlights':
+        v = case['version'] if case['version'] in tables.versions() else '2.5'
+        ec = {k: x for k, x in case['ec'].items()}
+        if case.get('second_encoding'):
+            # the first encoding happened under the set this one was derived from: any other escape character will do
+            ec = dict(ec, ESCAPE=[c for c in '!$%*+;<=>?@' if c not in ec.values() and c not in case['value']][-1])
+        cls = textual_classes(v).get(case['cls']) or textual_classes(v)['ST']
+        judge_highlights(cls, case['cls'], v, case['value'], [tuple(r) for r in case['ranges']], ec, er7ref.letters_for(v), rec)
     else:
         rec.inconclusive_reason('assign cases replay through the tier run with the same seed')
 
